@@ -40,7 +40,7 @@ def shards(tier, seed):
 
 
 def floors(tier):
-    return {"inverse:calls": 7000 if tier == "quick" else 200000, "clifford_from_stabilizer:calls": 2000, "graph_tableau:asked_again_after_use": 300,
+    return {"inverse:calls": 7000 if tier == "quick" else 200000, "clifford_from_stabilizer:calls": 2000, "inverse:n>=13": 80, "graph_tableau:asked_again_after_use": 300,
             "graph_tableau:calls": 300, "inverse:with_Y_entries": 1000, "inverse:with_negative_sign": 1000,
             "inverse:circuit_has_P": 500, "reverse_run:calls": 2000, "dense_crosscheck": 200, "inverse:low_sign_presentations": 300}
 
@@ -66,6 +66,9 @@ def run_shard(spec, ctx):
     elif k == "random":
         for i in range(spec["count"]):
             n = int(rng.integers(4, spec["nmax"] + 1))
+            if i % 20 == 9:
+                n = int(rng.integers(13, 49))
+                ctx.count("inverse:n>=13")
             t = stab.y_heavy_state(rng, n) if i % 2 else pauli.random_stabilizer_group(rng, n)
             if i % 4 == 3:
                 t = stab.low_sign_presentation(rng, t)
